@@ -412,12 +412,29 @@ func (p *parser) primary() *Expr {
 			var vars []SpecParam
 			for p.err == nil {
 				n := p.next()
+				prefix := ""
+				for p.isOp("*") || p.isOp("[") {
+					if p.isOp("*") {
+						p.next()
+						prefix += "*"
+					} else {
+						p.next()
+						p.expectOp("]")
+						prefix += "[]"
+					}
+				}
 				ty := p.next()
 				if n.kind != "id" || ty.kind != "id" {
 					p.fail("bad quantifier binder")
 					break
 				}
-				vars = append(vars, SpecParam{n.text, ty.text})
+				tyName := prefix + ty.text
+				if p.isOp(".") {
+					p.next()
+					q := p.next()
+					tyName += "." + q.text
+				}
+				vars = append(vars, SpecParam{n.text, tyName})
 				if p.isOp(",") {
 					p.next()
 					continue
@@ -587,7 +604,7 @@ func (C *Contracts) ParseContractText(origin, text string) {
 				errf(el.no, "%v in %q", err, rest)
 				continue
 			}
-			cl := Clause{Label: lab, Expr: e, Src: rest, UsesCallres: strings.Contains(rest, "callres(")}
+			cl := Clause{Label: lab, Expr: e, Src: rest, UsesCallres: strings.Contains(rest, "callres(") || strings.Contains(rest, "callarg(")}
 			switch {
 			case el.kw == "invariant" && curL != nil:
 				if cl.Label == "" {
